@@ -5,16 +5,17 @@ CONSTANTS
   Types = {"A"}
   Cases = {0}
   AdVals = {FALSE, TRUE}
-  CdVals = {FALSE}
+  CdVals = {FALSE, TRUE}
   DoVals = {FALSE, TRUE}
-  RdVals = {FALSE, TRUE}
+  RdVals = {TRUE}
   WithBypass = FALSE
-  Classes = {"answer", "err"}
+  Classes <- FlagClasses
   TtlVecs <- TV_One
   AdBits = {TRUE}
-  Ticks = {4000, 5500}
+  Ticks <- TK_Flags
   Configs <- CfgsDefault
-  MaxSteps = 6
+  MaxSteps = 4
+  RouteMode <- RouteModeAll
 SPECIFICATION Spec
 VIEW View
 INVARIANT TypeOK
